@@ -18,7 +18,7 @@ RULE = ("random configuration (1..6 parity + z, 1..6 data disks incl. position h
         "taken at sync time, following check clean. thorough: all device subsets of size <= N when nd+np <= 7. A case is "
         "non-trivial when the plan really changed >= 1 recorded block/entry; distinct by (cfg, history, plan).")
 
-DATA_KINDS = ["wipe", "wipe", "delete", "truncate", "flip", "rmlinks"]
+DATA_KINDS = ["wipe", "wipe", "delete", "truncate", "flip", "flip-newtime", "rmlinks"]
 PAR_KINDS = ["delete", "zero", "truncate", "flips", "random"]
 
 
@@ -131,7 +131,8 @@ def apply_stripe_plan(a, c, rng, nmax):
         for kind, x in rng.sample(cands, min(k, len(cands))):
             shape = rng.choice(["bit", "byte", "block", "zero"])
             if kind == "d":
-                r = dmg.damage_file_block(a, c, x[2], x[3], rng, shape)
+                # a third of the data blocks are damaged without putting the time-stamp back
+                r = dmg.damage_file_block(a, c, x[2], x[3], rng, shape, keep_stamp=rng.random() < 0.67)
             else:
                 r = dmg.damage_parity_block(a, c, x, pos, rng, shape)
             if r == "ok":
